@@ -211,16 +211,22 @@ def _run(ctx, quick, flavs, pool):
     tchunks = [list(range(i, min(ntr, i + 25))) for i in range(0, ntr, 25)]
     trace_async = pool.map_async(R.record_chunk, [(ctx.work, ctx.seed, ch, topts) for ch in tchunks], chunksize=1)
 
-    # 2. design level (independent of /repo), while the pool replays
-    r_main = ctx.tlc_must_hold("UpdateFile", "MC_UpdateFile.cfg", workers=6 if quick else 8)
-    r_live = ctx.tlc_must_hold("UpdateFile", _cfg("MC_UpdateFile_live.cfg", MaxN=2) if quick else "MC_UpdateFile_live.cfg",
-                               workers=4)
-    neg = {}
-    for mode, inv in NEG_CONTROLS:
-        r = ctx.tlc("UpdateFile", neg_cfg(mode, inv, 1 if quick else 2), workers=2, count=False)
-        if r.violated != inv:
-            raise core.MachineryError("negative control Mode=%s: expected %s to fail, TLC says %r" % (mode, inv, r.violated))
-        neg[mode] = inv
+    # 2. design level (independent of /repo), while the pool replays; the TLC processes run side by side
+    def negs():
+        out = {}
+        for mode, inv in NEG_CONTROLS:
+            r = ctx.tlc("UpdateFile", neg_cfg(mode, inv, 1 if quick else 2), workers=1, count=False)
+            if r.violated != inv:
+                raise core.MachineryError("negative control Mode=%s: expected %s to fail, TLC says %r" % (mode, inv, r.violated))
+            out[mode] = inv
+        return out
+    from concurrent.futures import ThreadPoolExecutor
+    with ThreadPoolExecutor(3) as ex:
+        f_main = ex.submit(ctx.tlc_must_hold, "UpdateFile", "MC_UpdateFile.cfg", workers=4 if quick else 8)
+        f_live = ex.submit(ctx.tlc_must_hold, "UpdateFile",
+                           _cfg("MC_UpdateFile_live.cfg", MaxN=2) if quick else "MC_UpdateFile_live.cfg", workers=2)
+        f_neg = ex.submit(negs)
+        r_main, r_live, neg = f_main.result(), f_live.result(), f_neg.result()
     ctx.extra["model"] = {"closed_config": {"MaxN": 3, "Sizes": [0, 2], "FlavourSets": ALL_FLAVOURS,
                                             "states": r_main.distinct, "depth": r_main.depth},
                           "termination_states": r_live.distinct,
@@ -271,7 +277,7 @@ def _run(ctx, quick, flavs, pool):
     ctx.extra["behaviours_per_fault"] = per_fault
     ctx.extra["model_outcomes"] = outcomes
     ctx.extra["observed_exception_types"] = excs
-    if skipped > 0.05 * max(1, len(results)):
+    if skipped > 0.05 * max(1, len(results)) and not ctx.violations:
         raise core.MachineryError("%d of %d replays skipped: injected write faults do not reach the code (wrappers out of date)"
                                   % (skipped, len(results)))
 
